@@ -1,5 +1,10 @@
-(* nvref_lang: line protocol over S-expressions produced by tools/progen.py
-     ref <fuel> <prog-sexp>   -> done <exit> <out-hex> | fault <kind> <out-hex> | stuck | nofuel      (Lang/Ref.v) *)
+(* nvref_c03: line protocol over S-expressions produced by tools/progen.py + tools/props/shadowlib.py
+     interp <fuel> <sprog>           -> done tests=<f>:<p|f>:<nfail>:<asserts 0/1 string>:<out-hex>;... skipped=<f,..> | sigfpe | unmodelled | nofuel
+                                        (Back/InterpSem + Driver/ShadowGate.run_interp, base = no leftover symbols)
+     nanoc <fuel> <front> <later> <sprog> -> exit <code> <binary 0|1> failed=<f>:<n>,... warn=<f,..> | killed | unmodelled | hang
+     reft <fuel> <sprog>             -> tests=<f>:<ok|assert|div|stuck|nofuel>:<out-hex>;...  | globals-failed     (Lang/Ref per shadow block)
+     apart <sprog>                   -> 1 | 0                                                  (Back/NamesApart.names_apart)
+   sprog = (sprog <prog> (shadows (sh <fn-hex> <skip 0|1> <stmt>) ...)),  prog as in lang_driver.ml *)
 type sx = A of ostring | L of sx list
 let parse_sx (s : ostring) : sx =
   let n = String.length s in
@@ -66,31 +71,35 @@ let prog_of (x : sx) : program =
           | _ -> failwith "fn") fs;
         pmain = n_of_hex m }
   | _ -> failwith "prog"
+let sprog_of (x : sx) : sprogram =
+  match x with
+  | L [A "sprog"; p; L (A "shadows" :: shs)] ->
+      { sp_prog = prog_of p;
+        sp_shadows = List.map (function
+          | L [A "sh"; A f; A sk; b] -> { sh_fn = n_of_hex f; sh_skip = (sk = "1"); sh_body = stmt_of b }
+          | _ -> failwith "shadow") shs }
+  | _ -> failwith "sprog"
 
-let fault_name = function FAssert -> "assert" | FDivZero -> "divzero" | FDivOverflow -> "divoverflow"
-let show_outcome = function
-  | Done (out, ex) -> "done " ^ hex_of_z ex ^ " " ^ hex_of_bytes out
-  | Faulted (f, out) -> "fault " ^ fault_name f ^ " " ^ hex_of_bytes out
-  | StuckO -> "stuck"
-  | OutOfFuel -> "nofuel"
-
-let merr_name = function EType -> "type" | EOob -> "oob" | EStack -> "stack" | ECallDepth -> "calldepth" | EAssert -> "assert"
-  | EDecode -> "decode" | EUndefFn -> "undeffn" | EUnsupported -> "unsupported"
-let show_vm = function
-  | VDone (out, ex) -> "done " ^ hex_of_z ex ^ " " ^ hex_of_bytes out
-  | VError (e, out) -> "vmerror " ^ merr_name e ^ " " ^ hex_of_bytes out
-  | VSignal out -> "signal fpe " ^ hex_of_bytes out
-  | VFellOff out -> "felloff x " ^ hex_of_bytes out
-  | VOutOfFuel -> "nofuel"
-  | VBad -> "bad"
-
-let show_nat = function
-  | NDone (out, ex) -> "done " ^ hex_of_z ex ^ " " ^ hex_of_bytes out
-  | NFaulted (NFAssert, out) -> "fault assert " ^ hex_of_bytes out
-  | NFaulted (_, out) -> "signal fpe " ^ hex_of_bytes out
-  | NStuckO -> "stuck"
-  | NCcFailO -> "ccfail"
-  | NOutOfFuel -> "nofuel"
+let names l = String.concat "," (List.map hex_of_n l)
+let bits l = if l = [] then "-" else String.concat "" (List.map (fun b -> if b then "1" else "0") l)
+let show_test (t : test_result) =
+  Printf.sprintf "%s:%s:%d:%s:%s" (hex_of_n t.tr_name) (if test_passed t then "p" else "f") (int_of_nat (fail_count t))
+    (bits t.tr_asserts) (hex_of_bytes t.tr_out)
+let show_run = function
+  | TDone (rs, sk, _) -> "done tests=" ^ String.concat ";" (List.map show_test rs) ^ " skipped=" ^ names sk
+  | TSigfpe -> "sigfpe" | TUnmodelled -> "unmodelled" | TNoFuel -> "nofuel"
+let show_nanoc = function
+  | NExit (c, b, rep, w) ->
+      let failed = List.filter_map (function RFailed (f, n) -> Some (hex_of_n f ^ ":" ^ string_of_int (int_of_nat n)) | _ -> None) rep in
+      Printf.sprintf "exit %s %d failed=%s warn=%s stderrfailed=%d" (hex_of_z c) (if b then 1 else 0) (String.concat "," failed) (names w)
+        (if List.exists (function RShadowTestsFailed -> true | _ -> false) rep then 1 else 0)
+  | NKilled -> "killed" | NUnmodelledRun -> "unmodelled" | NHang -> "hang"
+let show_ref (f, r) =
+  hex_of_n f ^ ":" ^ (match r with
+    | Ok (_, out) -> "ok:" ^ hex_of_bytes out
+    | Fault (FAssert, out) -> "assert:" ^ hex_of_bytes out
+    | Fault (_, out) -> "div:" ^ hex_of_bytes out
+    | Stuck -> "stuck:-" | NoFuel -> "nofuel:-")
 
 let split2 (l : ostring) : ostring * ostring =
   match String.index_opt l ' ' with
@@ -101,35 +110,15 @@ let () = iter_lines (fun line ->
   let (cmd, rest) = split2 line in
   try
     match cmd with
-    | "ref" -> let (fu, sx) = split2 rest in
-        print_string (show_outcome (run_ref (nat_of_int (int_of_string fu)) (prog_of (parse_sx sx))) ^ "\n")
-    | "natl" | "natr" -> let (fu, sx) = split2 rest in
-        print_string (show_nat (run_nat (if cmd = "natl" then LtoR else RtoL) (nat_of_int (int_of_string fu)) (prog_of (parse_sx sx))) ^ "\n")
-    | "nc" ->
-        (* nc <fuel> (env (x int|bool v)...) <expr> : the repository's eval_fn on the embedded expression, and the common-domain evaluator *)
-        let (fu, r) = split2 rest in
-        (match parse_sx ("(" ^ r ^ ")") with
-         | L [L (A "env" :: bs); e] ->
-             let en = List.map (function
-               | L [A x; A "int"; A v] -> (n_of_hex x, (false, VInt (z_of_hex v)))
-               | L [A x; A "bool"; A v] -> (n_of_hex x, (false, VBool (v = "1")))
-               | _ -> failwith "binding") bs in
-             let ex = expr_of e in
-             let show_v = function Some (VInt z) -> "int:" ^ hex_of_z z | Some (VBool b) -> if b then "bool:1" else "bool:0" | Some _ -> "other" | None -> "none" in
-             print_string ("exact=" ^ show_v (exact_eval en ex) ^ " nanocore=" ^ show_v (nanocore_eval_v (nat_of_int (int_of_string fu)) en ex) ^ "\n")
-         | _ -> print_string "bad\n")
-    | "vmc" -> let (_, sx) = split2 rest in
-        (match compile_program (prog_of (parse_sx sx)) with
-         | None -> print_string "err\n"
-         | Some m ->
-             let strs = String.concat "," (List.map hex_of_bytes m.m_strings) in
-             let fns = String.concat ";" (List.map (fun e -> Printf.sprintf "%d:%d:%d:%d:%d:0" (int_of_nat e.fe_name) (int_of_nat e.fe_arity)
-                          (int_of_nat e.fe_off) (int_of_nat e.fe_len) (int_of_nat e.fe_locals)) m.m_fns) in
-             print_string (Printf.sprintf "ok entry=%d strings=%s fns=%s code=%s\n" (int_of_nat m.m_entry) strs fns (hex_of_bytes m.m_code)))
-    | "vmrun" -> let (fu, sx) = split2 rest in
-        (match compile_program (prog_of (parse_sx sx)) with
-         | None -> print_string "compile-error\n"
-         | Some m -> print_string (show_vm (run_vm (nat_of_int (int_of_string fu)) m) ^ "\n"))
+    | "interp" -> let (fu, sx) = split2 rest in
+        print_string (show_run (run_interp (nat_of_int (int_of_string fu)) (sprog_of (parse_sx sx)) []) ^ "\n")
+    | "nanoc" -> let (fu, r1) = split2 rest in let (fr, r2) = split2 r1 in let (la, sx) = split2 r2 in
+        print_string (show_nanoc (nanoc { front_ok = (fr = "1"); later_ok = (la = "1") } (nat_of_int (int_of_string fu)) (sprog_of (parse_sx sx)) []) ^ "\n")
+    | "reft" -> let (fu, sx) = split2 rest in
+        (match ref_tests (nat_of_int (int_of_string fu)) (sprog_of (parse_sx sx)) with
+         | None -> print_string "globals-failed\n"
+         | Some l -> print_string ("tests=" ^ String.concat ";" (List.map show_ref l) ^ "\n"))
+    | "apart" -> print_string ((if names_apart (sprog_of (parse_sx rest)) then "1" else "0") ^ "\n")
     | "" -> ()
     | _ -> print_string "bad\n"
   with Failure m -> print_string ("error " ^ m ^ "\n") | Stack_overflow -> print_string "error stackoverflow\n")
